@@ -272,8 +272,13 @@ def drive_merges(cinco, rng, n):
     return cases
 
 
-DIRS = ["$/W", "$/A", "$/B", "$/A/s", "$/W/s"]
-STARTDIRS = ["", "", "$/A", "$/A", "$/B", "$/A/s"]
+FILE_DIRS = ["$/W", "$/A", "$/B", "$/A/s", "$/H", "$/H/c"]
+DIRS = FILE_DIRS + ["$/W/s"]
+STARTDIRS = ["", "", "$/A", "$/A", "$/B", "$/A/s", "~", "~/c"]  # "~": the home directory, $/H
+
+
+def expand(startdir):
+    return "$/H" + startdir[1:] if startdir.startswith("~") else startdir
 
 
 def rnd_schema(rng, depth=0):
@@ -303,7 +308,7 @@ def scopes_of(desc, path=()):
 
 def rnd_name(rng, startdir, files):
     """A file name as a user would write it for an include field with this start directory."""
-    base = startdir or "$/W"
+    base = expand(startdir) or "$/W"
     r = rng.random()
     if r < 0.06:
         return S(rng.choice(["zz", "s/zz", "$/A/zz", "../zz"]))  # missing
@@ -358,7 +363,7 @@ def rnd_world(rng, fmt):
     desc = rnd_schema(rng)
     scopes = list(scopes_of(desc))
     names = ["f%d" % i for i in range(1, 7)]
-    files = sorted({rng.choice(DIRS[:4]) + "/" + rng.choice(names) for _ in range(rng.randint(2, 7))})
+    files = sorted({rng.choice(FILE_DIRS) + "/" + rng.choice(names) for _ in range(rng.randint(2, 7))})
     fs = [[chars(d), {"k": "dir"}] for d in DIRS]
     for p in files:
         r = rng.random()
@@ -670,7 +675,7 @@ def run(tier, seed):
     out.assumptions = [
         "documents and include files are written with the third-party encoders (json, yaml, bson, pickle) and a small XML writer of the documented element mapping; that each format decodes what it encodes is C04's",
         "schemas use plain Field, IntField, IncludeField and nested Schema only; no environment variables, no dynamic schemas, no required fields",
-        "the file system is abstracted to file(tree) / unparseable / unreadable / directory / missing below a scratch root, the working directory is $/W; no symbolic links, no '~' in names",
+        "the file system is abstracted to file(tree) / unparseable / unreadable / directory / missing below a scratch root; the working directory is $/W and HOME is $/H while a case runs (start directories may begin with '~'); no symbolic links, no '~user', no '~' in include names",
         "an unreadable include is realised by making open() raise PermissionError for that path inside the harness process (the checks run as root)",
         "the order of keys in a merged map and the exception class of a rejection are not part of the property and are not compared; a load_tree that fails half-way may leave partial state (compared only for acceptance)",
     ]
